@@ -57,6 +57,9 @@ verus! {
                     decreases bv.cleared.len() - __fjx_n2,
 //@proof before @loop-start 2
                     proof { assert(*keyspace_id == bv.cleared[__fjx_n2 - 1]); }
+//@proof before keyspace.tree.clear(
+                    // P-CLEAR (C04): a replayed clear drops every layer of the tree, so nothing in its tables may be newer than the clear
+                    proof { assert(level_ok(w.trees[keyspace.tree.id@], batch.seqno)); } // [C04:P-CLEAR]
 //@proof before shim_slice_end
     proof { assert(w.trees == replay_batches(*old(w), old(w).trees, reader.emits@, reader.emits@.len() as int)); } // [C02:all-emitted-batches-replayed]
     proof { assert(all_ids_below(reader.emits@, reader.emits@.len() as int, w.next_ks_id)); } // [C12:P-ID-counter-above-every-journaled-id]
